@@ -272,7 +272,7 @@ def run_cli(desc, ctx, res):
                         {'file': desc['name'], 'mode': desc['mode'], 'index': i, 'got': p.stdout[:1500]})
 
 
-SUBCOMMANDS = ['align', 'map', 'distance', 'weed', 'delete', 'merge', 'lo', 'nk']
+SUBCOMMANDS = ['align', 'map', 'distance', 'weed', 'delete', 'merge', 'merge3', 'lo', 'nk', 'nk-short']
 
 
 def sub_run(ctx, cmd, skf, aux, tag):
@@ -281,6 +281,18 @@ def sub_run(ctx, cmd, skf, aux, tag):
     if cmd == 'nk':
         p = ctx.sh(b, 'nk', '--full-info', skf, mem_gb=MEM_GB)
         return p.returncode, content_of(p.stdout)
+    if cmd == 'nk-short':
+        # the short form has its own way through the file
+        p = ctx.sh(b, 'nk', skf, mem_gb=MEM_GB)
+        return p.returncode, content_of(p.stdout)
+    if cmd == 'merge3':
+        # the file as third argument, after another file and after an intact copy of itself (at least as large)
+        out = ctx.path('m3_%s' % tag)
+        p = ctx.sh(b, 'merge', aux['other'], aux['intact'], skf, '-o', out, mem_gb=MEM_GB)
+        if p.returncode != 0:
+            return p.returncode, None
+        q = ctx.sh(b, 'nk', '--full-info', out + '.skf')
+        return q.returncode, content_of(q.stdout)
     if cmd == 'align':
         p = ctx.sh(b, 'align', skf, '--filter', 'no-filter', '--min-freq', '0', mem_gb=MEM_GB)
         n, s = M.parse_fasta(p.stdout)
@@ -341,7 +353,8 @@ def run_sub(desc, ctx, res):
     names = hdr['names']
     h = (k - 1) // 2
     arms = list(T)[:5]
-    aux = {'ref': ctx.path('ref.fa'), 'weed': ctx.path('weed.fa'), 'del': names[0], 'other': ctx.path('other.skf'), 'merge_first': rng.random() < 0.5}
+    aux = {'ref': ctx.path('ref.fa'), 'weed': ctx.path('weed.fa'), 'del': names[0], 'other': ctx.path('other.skf'), 'merge_first': rng.random() < 0.5,
+           'intact': desc['skf_file']}
     refrecs = [a[:h] + 'A' + a[h:] for a in arms] or [G.rseq(rng, k)]
     G.write_fa(aux['ref'], ['N'.join(refrecs)])
     G.write_fa(aux['weed'], [refrecs[0]])
@@ -354,9 +367,19 @@ def run_sub(desc, ctx, res):
     base = {}
     for c in cmds:
         base[c] = sub_run(ctx, c, desc['skf_file'], aux, 'orig')
-    for _ in range(desc['n']):
+    # cuts where the compressed stream ends cleanly: nothing at all, the stream identifier alone, every chunk boundary
+    clean_cuts, pos_ = [0], 0
+    while pos_ + 4 <= len(data):
+        pos_ += 4 + (data[pos_ + 1] | (data[pos_ + 2] << 8) | (data[pos_ + 3] << 16))
+        if pos_ < len(data):
+            clean_cuts.append(pos_)
+    rng.shuffle(clean_cuts)
+    for it in range(desc['n']):
         mode = 'trunc' if rng.random() < 0.2 else 'flip'
         i = rng.randrange(len(data)) if mode == 'trunc' else rng.randrange(len(data) * 8)
+        if it < 2 and it < len(clean_cuts):
+            mode, i = 'trunc', clean_cuts[it]
+            res.count('cuts_at_chunk_boundaries')
         ctx.write('d.skf', damaged(data, mode, i))
         for c in cmds:
             rcode, result = sub_run(ctx, c, ctx.path('d.skf'), aux, 'dmg')
